@@ -165,15 +165,17 @@ func H01_failing_subscriber() {
 	q := vrtByte("q")
 	vrtAssume(q <= 2)
 	viaServer := vrtBool("server_publish")
+	retain := vrtBool("retain")
 	if viaServer {
 		m := message.NewPublishMessage()
 		m.SetTopic([]byte("t"))
 		m.SetPayload([]byte("x"))
 		m.SetQoS(q)
+		m.SetRetain(retain)
 		b.svr.Publish(m)
 		vrtQuiesce()
 	} else {
-		pk := &specPkt{Typ: specPUBLISH, Flags: q << 1, Topic: []byte("t"), Payload: []byte("x")}
+		pk := &specPkt{Typ: specPUBLISH, Flags: q<<1 | vrtB2b(retain, 1), Topic: []byte("t"), Payload: []byte("x")}
 		if q > 0 {
 			pk.ID = 5
 		}
@@ -185,7 +187,175 @@ func H01_failing_subscriber() {
 	got, ok := vrtParse(a.peerTake())
 	vrtAssert("C01.stream_wellformed", ok)
 	vrtCheckDelivery("behind_failing", got, true, []byte("t"), []byte("x"), specMinQos(q, 1))
-	vrtCheckDelivery("inproc_behind_failing", in.take(), true, []byte("t"), []byte("x"), specMinQos(q, 1))
+	gin := in.take()
+	for i := range gin {
+		// (what an in-process callback sees in the RETAIN flag of a live forward is the message object of the
+		// publisher, as left by the deliveries before it - not part of the claim, which is about packets)
+		gin[i].Flags &^= 1
+	}
+	vrtCheckDelivery("inproc_behind_failing", gin, true, []byte("t"), []byte("x"), specMinQos(q, 1))
 	vrtAssert("C01.publisher_unaffected", !p.isClosed())
+	// a retained message is stored whatever happened to the deliveries: a later subscription receives it
+	late, _ := b.connect(vrtConnectPkt([]byte("late"), true))
+	ans, okl := vrtParse(vrtExchange(late, &specPkt{Typ: specSUBSCRIBE, ID: 1, Topics: [][]byte{[]byte("t")}, QoS: []byte{2}}))
+	wantLate := 1
+	if retain {
+		wantLate = 2
+	}
+	vrtAssert("C01.retained_stored_despite_failed_delivery", okl && len(ans) == wantLate)
+	if okl && retain && len(ans) == 2 {
+		vrtAssert("C01.retained_stored_despite_failed_delivery", vrtAnd(ans[1].Typ == specPUBLISH, vrtAnd(ans[1].Flags&1 == 1, vrtAnd((ans[1].Flags>>1)&3 == q, vrtBytesEq(ans[1].Payload, []byte("x"))))))
+	}
 	vrtReach("C01.failing_subscriber")
+}
+
+// H01_nested_publish: an in-process subscriber publishes another message
+// through Server.Publish from inside its delivery callback (a bridge /
+// republisher); the fan-out of the outer message goes on undisturbed, and the
+// inner message reaches exactly its own subscribers.
+func H01_nested_publish() {
+	b := vrtBroker("mockSuccess")
+	inA1, inA3, inB1, inB2 := vrtNewInproc(), vrtNewInproc(), vrtNewInproc(), vrtNewInproc()
+	bridge := vrtNewInproc()
+	bridgeCalls := 0
+	var bmu sync.Mutex // (the callback runs on a goroutine of the library)
+	bridge.fn = func(m *message.PublishMessage) error {
+		bmu.Lock()
+		bridgeCalls++
+		bmu.Unlock()
+		n := message.NewPublishMessage()
+		n.SetTopic([]byte("b"))
+		n.SetPayload([]byte("inner"))
+		n.SetQoS(1)
+		return b.svr.Publish(n)
+	}
+	a, _ := b.connect(vrtConnectPkt([]byte("a"), true))
+	vrtExchange(a, &specPkt{Typ: specSUBSCRIBE, ID: 1, Topics: [][]byte{[]byte("a")}, QoS: []byte{1}})
+	a.peerTake()
+	pos := vrtChoice("bridge_position", 3)
+	order := []*vrtInproc{inA1, inA3}
+	subs := []*vrtInproc{}
+	for i := 0; i < 3; i++ {
+		if i == pos {
+			subs = append(subs, bridge)
+		} else {
+			subs = append(subs, order[0])
+			order = order[1:]
+		}
+	}
+	for _, s := range subs {
+		b.svr.Subscribe("a", 1, &s.fn)
+	}
+	b.svr.Subscribe("b", 2, &inB1.fn)
+	b.svr.Subscribe("b", 0, &inB2.fn)
+	m := message.NewPublishMessage()
+	m.SetTopic([]byte("a"))
+	m.SetPayload([]byte("outer"))
+	m.SetQoS(1)
+	if vrtBool("from_a_connection") {
+		p, _ := b.connect(vrtConnectPkt([]byte("p"), true))
+		vrtExchange(p, &specPkt{Typ: specPUBLISH, Flags: 2, ID: 4, Topic: []byte("a"), Payload: []byte("outer")})
+	} else {
+		vrtAssert("C01.inprocess_publish_ok", b.svr.Publish(m) == nil)
+		vrtQuiesce()
+	}
+	bmu.Lock()
+	vrtAssert("C01.harness_bridge_called_once", bridgeCalls == 1)
+	bmu.Unlock()
+	vrtCheckDelivery("outer.in1", inA1.take(), true, []byte("a"), []byte("outer"), 1)
+	vrtCheckDelivery("outer.in3", inA3.take(), true, []byte("a"), []byte("outer"), 1)
+	got, ok := vrtParse(a.peerTake())
+	vrtAssert("C01.stream_wellformed", ok)
+	vrtCheckDelivery("outer.client", got, true, []byte("a"), []byte("outer"), 1)
+	vrtCheckDelivery("inner.b1", inB1.take(), true, []byte("b"), []byte("inner"), 1)
+	vrtCheckDelivery("inner.b2", inB2.take(), true, []byte("b"), []byte("inner"), 0)
+	vrtReach("C01.nested_publish")
+}
+
+// H01s_boundary_sizes: a message the broker has to re-encode (QoS 1 publish
+// delivered to a QoS 0 subscription, or published in-process) whose delivered
+// remaining length is 125..131: topic and every payload byte
+// arrive, and the packet has the size its header announces.
+func H01s_boundary_sizes() {
+	b := vrtBroker("mockSuccess")
+	s, _ := b.connect(vrtConnectPkt([]byte("s"), true))
+	vrtExchange(s, &specPkt{Typ: specSUBSCRIBE, ID: 1, Topics: [][]byte{[]byte("t")}, QoS: []byte{0}})
+	s.peerTake()
+	p, _ := b.connect(vrtConnectPkt([]byte("p"), true))
+	// (the larger boundary, 16383/16384, is above the packet limit of the bench's 16 KiB rings: H03a / H04b cover it)
+	targets := []int{125, 126, 127, 128, 129, 130, 131}
+	R := targets[vrtChoice("delivered_remaining_length", len(targets))]
+	payload := make([]byte, R-3) // QoS 0 delivery: 2 + len("t") + payload
+	for i := range payload {
+		payload[i] = byte('a' + i%23)
+	}
+	payload[len(payload)-1] = vrtByte("last")
+	payload[0] = vrtByte("first")
+	want := append([]byte(nil), payload...)
+	if vrtBool("server_publish") {
+		m := message.NewPublishMessage()
+		m.SetTopic([]byte("t"))
+		m.SetPayload(payload)
+		m.SetQoS(1)
+		vrtAssert("C01.inprocess_publish_ok", b.svr.Publish(m) == nil)
+		vrtQuiesce()
+	} else {
+		vrtExchange(p, &specPkt{Typ: specPUBLISH, Flags: 2, ID: 9, Topic: []byte("t"), Payload: payload})
+	}
+	raw := s.peerTake()
+	exp := specEncode(&specPkt{Typ: specPUBLISH, Topic: []byte("t"), Payload: want})
+	vrtAssert("C01.boundary_size_delivered_bytes", vrtBytesEq(raw, exp))
+	vrtReach("C01.boundary_sizes")
+}
+
+// H01_unsubscribe_in_callback: an in-process subscriber unsubscribes itself
+// from inside its delivery callback, while the fan-out of that message is
+// still going on: every other subscriber of the topic receives the message
+// exactly once, with its own granted QoS.
+func H01_unsubscribe_in_callback() {
+	b := vrtBroker("mockSuccess")
+	n := 3
+	subs := make([]*vrtInproc, n)
+	qoss := []byte{1, 0, 2}
+	leaver := vrtChoice("leaver", n)
+	for i := 0; i < n; i++ {
+		subs[i] = vrtNewInproc()
+	}
+	left := 0
+	inner := subs[leaver].fn
+	var leaverFn OnPublishFunc
+	leaverFn = func(m *message.PublishMessage) error {
+		left++
+		err := inner(m)
+		b.svr.Unsubscribe("t", &leaverFn)
+		return err
+	}
+	for i := 0; i < n; i++ {
+		if i == leaver {
+			b.svr.Subscribe("t", qoss[i], &leaverFn)
+		} else {
+			b.svr.Subscribe("t", qoss[i], &subs[i].fn)
+		}
+	}
+	a, _ := b.connect(vrtConnectPkt([]byte("a"), true))
+	vrtExchange(a, &specPkt{Typ: specSUBSCRIBE, ID: 1, Topics: [][]byte{[]byte("t")}, QoS: []byte{1}})
+	a.peerTake()
+	m := message.NewPublishMessage()
+	m.SetTopic([]byte("t"))
+	m.SetPayload([]byte("x"))
+	m.SetQoS(2)
+	vrtAssert("C01.inprocess_publish_ok", b.svr.Publish(m) == nil)
+	vrtQuiesce()
+	vrtAssert("C01.harness_leaver_called_once", left == 1)
+	for i := 0; i < n; i++ {
+		vrtCheckDelivery("fanout_with_leaver", subs[i].take(), true, []byte("t"), []byte("x"), qoss[i])
+	}
+	got, ok := vrtParse(a.peerTake())
+	vrtAssert("C01.stream_wellformed", ok)
+	vrtCheckDelivery("fanout_with_leaver.client", got, true, []byte("t"), []byte("x"), 1)
+	// afterwards the one that left receives nothing
+	vrtAssert("C01.inprocess_publish_ok", b.svr.Publish(m) == nil)
+	vrtQuiesce()
+	vrtAssert("C01.nothing_after_unsubscribe", len(subs[leaver].take()) == 0)
+	vrtReach("C01.unsubscribe_in_callback")
 }
